@@ -24,6 +24,7 @@ RULE = ("every intercepted call of a fault-free run is made to raise once (write
         "random histories of edit / remove / parse-with-fault; multi-file calls and UAGraph.from_path with every fault position; "
         "distinct = distinct (scenario, failing call); non-trivial = the call got past the existence check")
 
+UA = minibase.UA
 NAMES = ["a.xml", "my file.xml", "x_parsed.json", "Opc.Ua.NodeSet2.xml", "ü.xml"]
 
 
@@ -329,6 +330,68 @@ def check_many(run, sc, i):
     return True
 
 
+def check_filtered(run, sc, i):
+    """the list entry points with the optional `namespaces` argument (files whose model URI is not listed are left out):
+    whether a file is parsed or left out, the directory holds afterwards exactly what it held — also when a call fails —
+    and a later parse sees the current content"""
+    from opcua_tools import nodeset_parser as npm
+    rng = run.rng
+    n = 3
+    cs = [7500 + 10 * i + k for k in range(n)]
+    keep = sorted(rng.sample(range(n), rng.randint(1, 2)))
+    bad_at = rng.choice([None, None, 0, 1, 2])
+    api = rng.choice(["parse_xml_files", "parse_xml_dir"])
+
+    def setup(tag):
+        dr = Dir(sc, tag)
+        for k in range(n):
+            dr.put("f%d.xml" % k, cs[k], ("not_wf",) if k == bad_at and k in keep else ())
+        return dr
+
+    def fn(dr):
+        nss = [UA] + ["urn:c%d" % cs[k] for k in keep]
+        if api == "parse_xml_dir":
+            return lambda: npm.parse_xml_dir(dr.d, list(nss))
+        return lambda: npm.parse_xml_files([dr.path("f%d.xml" % k) for k in range(n)], list(nss))
+
+    def go(dr, faults=None):
+        ctl = PR.Ctl()
+        if faults:
+            ctl.faults = {0: dict(faults)}
+        with PR.Patched(ctl):
+            o, res = PR.outcome_of(fn(dr), ctl)
+        return o, res, ctl.raw.get(0, [])
+
+    dr = setup("flt%d" % i)
+    before = PR.snapshot(dr.d)
+    o, res, raw = go(dr)
+    case = {"api": api + " with namespaces", "files": ["f%d.xml" % k for k in range(n)], "listed": keep, "not_well_formed": bad_at if bad_at in keep else None}
+    run.case(case, tag="filtered")
+    if PR.snapshot(dr.d) != before:
+        run.violation(case, {"what": "directory changed by %s(…, namespaces): %r -> %r" % (api, sorted(before), listing(dr.d)), "outcome": o, "calls": raw})
+        return False
+    # after the (possibly failed) call: edit a listed file and parse it alone — the result is that of the new content
+    k0 = keep[0]
+    dr.put("f%d.xml" % k0, cs[k0] + 3)
+    o3, res3, _ = real_run("parse_xml", [dr.path("f%d.xml" % k0)])
+    if res3 is None or PR.fingerprint(res3) != lone_fp(run, sc, "f%d.xml" % k0, cs[k0] + 3):
+        run.violation(case, {"what": "after %s(…, namespaces) and an edit of f%d.xml, parsing it does not give the lone result of its new content: %r" % (api, k0, o3)})
+        return False
+    idx = [j for j, (lab, _) in enumerate(raw) if lab not in PR.NOT_FAULTABLE]
+    for j in (idx if run.tier == "thorough" else rng.sample(idx, min(len(idx), 6))):
+        d2 = setup("flt%d_f%d" % (i, j))
+        b2 = PR.snapshot(d2.d)
+        o2, _, raw2 = go(d2, {j: "raise"})
+        c2 = dict(case, failing_call={"index": j, "call": raw[j][0]})
+        run.case(c2, tag="filtered:" + raw[j][0])
+        if PR.snapshot(d2.d) != b2:
+            run.violation(c2, {"what": "%s(…, namespaces) with call %d (%s) failing: directory %r -> %r, outcome %r" % (api, j, raw[j][0], sorted(b2), listing(d2.d), o2), "calls": raw2})
+            return False
+        shutil.rmtree(d2.d, ignore_errors=True)
+    shutil.rmtree(dr.d, ignore_errors=True)
+    return True
+
+
 def check_from_path(run, sc, i):
     from opcua_tools.ua_graph import UAGraph
 
@@ -432,6 +495,9 @@ def explore(run):
                 return
         for i in range(10 if thorough else 2):
             if not check_paths(run, sc, i):
+                return
+        for i in range(40 if thorough else 6):
+            if not check_filtered(run, sc, i):
                 return
 
 
